@@ -1742,7 +1742,15 @@ impl<'de> de::MapAccess<'de> for Compound<'_, 'de> {
                     self.de.expect_type = expect.0.clone();
                     self.de.wire_type = wire.0.clone();
                 }
-                seed.deserialize(&mut *self.de).map(Some)
+                // The big-number fast path vouches for the value only: keep it away from the key.
+                #[cfg(feature = "bignum")]
+                let value_fast = self.de.bignum_vec_fast_path.take();
+                let key = seed.deserialize(&mut *self.de);
+                #[cfg(feature = "bignum")]
+                {
+                    self.de.bignum_vec_fast_path = value_fast;
+                }
+                key.map(Some)
             }
             _ => Err(Error::msg("expect struct or map")),
         }
@@ -1752,22 +1760,24 @@ impl<'de> de::MapAccess<'de> for Compound<'_, 'de> {
         V: de::DeserializeSeed<'de>,
     {
         match &self.style {
-            Style::Map { expect, wire, .. } => {
+            Style::Map {
+                expect,
+                wire,
+                key_text_fast,
+                ..
+            } => {
                 #[cfg(feature = "bignum")]
-                let any_fast = self.de.text_fast_path || self.de.bignum_vec_fast_path.is_some();
+                let any_fast = *key_text_fast || self.de.bignum_vec_fast_path.is_some();
                 #[cfg(not(feature = "bignum"))]
-                let any_fast = self.de.text_fast_path;
+                let any_fast = *key_text_fast;
                 if !any_fast {
                     self.de.add_cost(3)?;
                 }
-                #[cfg(feature = "bignum")]
-                let value_fast = self.de.bignum_vec_fast_path.is_some();
-                #[cfg(not(feature = "bignum"))]
-                let value_fast = false;
-                if !value_fast {
-                    self.de.expect_type = expect.1.clone();
-                    self.de.wire_type = wire.1.clone();
-                }
+                // The text fast path vouches for the key only, and the key has
+                // overwritten the types: the value is always read at its own types.
+                self.de.text_fast_path = false;
+                self.de.expect_type = expect.1.clone();
+                self.de.wire_type = wire.1.clone();
                 seed.deserialize(&mut *self.de)
             }
             _ => {
